@@ -16,8 +16,11 @@ ASSUMPTIONS = [
     "authorisation of the signer of a finality report is C04's subject: the theorems count a vote by WHO the report says the validator is",
     "ERC-20: only runERC20Lock's effect on the tracker stores is modelled (do_lock_erc, outside op/step); the ERC-20 mint/burn side and "
     "ext_ERC20redeem.go are not; that part is tied to the code by two scripted scenarios on the real application (`vh c15 -erc20`), not by generated runs",
-    "redeem byte strings that make ParseRedeem panic (no selector inside) and negative vote indices are never submitted by the harness "
-    "(both crash the real node: C18's subject); the model returns Crash for the negative index",
+    "DeliverTx runs the kind's Validate first (/repo d276709); the model's [valid] has the static field checks (vote index >= 0, SEND amount >= 0 and "
+    "20-byte addresses) and abstracts 'the named signer signed' by e_key (accounts with a key in the harness; signature checking itself is C04's subject); "
+    "fee validation concerns OLT and is outside the model",
+    "the supply address is not the address of any signing key (it is the byte string of TotalSupplyAddr)",
+    "redeem byte strings that make ParseRedeem panic (no selector inside) are never submitted by the harness (C18's subject: see findings/C15_c18_crash_inputs.json)",
 ]
 
 ERC_TRIGGER = "C15.erc20_lock_no_existence_check"
@@ -30,6 +33,7 @@ CHECKS = {1: "one tracker per external transaction name across the three stores"
           5: "at most one mint and one refund per tracker name",
           6: "mint / refund happen in the transaction that crosses the threshold",
           7: "a tracker is created only by an accepted lock/redeem of a name in no store, with empty slots (redeem: debited in the same step)",
+          9: "a transaction that its kind's Validate refuses (signer without key, negative vote index, SEND to/from a malformed address) has no effect",
           8: "REGRESSION of the repaired defect C15.mint_to_report_locker: the locked amount was credited to the Locker named in the "
              "threshold-crossing report instead of the account that submitted the lock"}
 
